@@ -12,11 +12,12 @@ type likeToken struct {
 	c    byte
 }
 
-// compileLike parses a LIKE pattern — rule A2: '%' any run of bytes (including none), '_' exactly
-// one character, '\%' '\_' '\\' literals; a backslash before any other character keeps both
-// characters literal (ClickHouse's likePatternToRegexp emits the backslash and the character as a
-// regexp escape, i.e. the character itself for non-alphanumerics; for alphanumerics such as \n the
-// regexp meaning would apply — those are refused); a pattern ending in a lone backslash raises.
+// compileLike parses a LIKE pattern — rule A2, following ClickHouse's likePatternToRegexp (23.x):
+// '%' any run of bytes (including none), '_' exactly one character, '\\%' '\\_' '\\\\' the literal
+// characters; a backslash before any other character is an unknown escape sequence "treated
+// literally: as backslash + the following character"; a pattern ending in a lone backslash raises
+// CANNOT_PARSE_ESCAPE_SEQUENCE. (Releases up to 22.8 treated a trailing backslash as a literal and
+// passed unknown escapes on to re2; the harness targets the newer behaviour.)
 func compileLike(p string) ([]likeToken, error) {
 	var toks []likeToken
 	for i := 0; i < len(p); i++ {
@@ -34,15 +35,12 @@ func compileLike(p string) ([]likeToken, error) {
 				return nil, raise("A2", "LIKE pattern %q ends with a lone backslash (CANNOT_PARSE_ESCAPE_SEQUENCE)", p)
 			}
 			n := p[i+1]
-			switch {
-			case n == '%' || n == '_' || n == '\\':
+			if n == '%' || n == '_' || n == '\\' {
 				toks = append(toks, likeToken{kind: 'c', c: n})
-			case n >= 'a' && n <= 'z' || n >= 'A' && n <= 'Z' || n >= '0' && n <= '9':
-				return nil, unsupported("LIKE pattern with backslash before alphanumeric %q", string(n))
-			default:
-				toks = append(toks, likeToken{kind: 'c', c: n})
+				i++
+			} else {
+				toks = append(toks, likeToken{kind: 'c', c: '\\'}) // the next character is handled on its own
 			}
-			i++
 		default:
 			toks = append(toks, likeToken{kind: 'c', c: c})
 		}
